@@ -507,12 +507,19 @@ func (s *scenario) meshing() {
 		model3d.NewRect(model3d.XYZ(-0.5, -0.25, -0.3), model3d.XYZ(1.5, 0.5, 0.3+rng.Float64())),
 	}
 	delta := 0.08 + 0.1*rng.Float64()
-	which := rng.Intn(6)
+	which := rng.Intn(7)
+	// a solid whose Contains keeps working state between the evaluations of its fields
+	smooth := model3d.SmoothJoinV2(0.2+0.3*rng.Float64(),
+		&model3d.Sphere{Center: model3d.XYZ(-0.4, 0, 0), Radius: 0.6 + 0.3*rng.Float64()},
+		&model3d.Capsule{P1: model3d.XYZ(0.2, -0.1, 0), P2: model3d.XYZ(1, 0.3, 0.4), Radius: 0.3 + 0.3*rng.Float64()},
+		model3d.NewRect(model3d.XYZ(-0.3, -0.9, -0.3), model3d.XYZ(0.5, 0.2, 0.3)))
 	// a solid whose Contains goes through ray queries of one shared ProfileCollider
 	prof := model3d.NewColliderSolid(model3d.ProfileCollider(model2d.MeshToCollider(
 		model2d.NewMeshPolar(func(t float64) float64 { return 1 + 0.3*math.Sin(3*t) }, 40)), -0.4, 0.3+rng.Float64()))
 	s.atProcs("meshing", fmt.Sprintf("which=%d", which), func() string {
 		switch which {
+		case 6:
+			return meshDigest(model3d.MarchingCubes(smooth, delta))
 		case 5:
 			return meshDigest(model3d.MarchingCubes(prof, delta))
 		case 0:
@@ -732,6 +739,8 @@ func run(c *hlib.Ctx) {
 		s.cacheFunc(n)
 		s.sharedq(n, collFamilies[r%len(collFamilies)])
 		s.sharedobj(n, objFamilies[r%len(objFamilies)])
+		s.sharedsolid(n, solidFamilies[r%len(solidFamilies)])
+		s.sdfhist()
 		if !s.race {
 			s.mapCoords()
 			// schedule-controlled scenarios: fully synchronised by construction, so they are of
@@ -741,6 +750,12 @@ func run(c *hlib.Ctx) {
 			}
 			s.nestobj(objFamilies[r%len(objFamilies)])
 			s.nestobj(objFamilies[(r+2)%len(objFamilies)])
+			for _, fam := range solidFamilies {
+				s.nestsolid(fam)
+			}
+			for _, fam := range solidFamilies2 {
+				s.nestsolid2(fam)
+			}
 			s.renderSched()
 			s.nestcache()
 			if r%10 == 0 {
@@ -751,8 +766,12 @@ func run(c *hlib.Ctx) {
 			s.rasterize()
 			s.kmeans()
 			s.meshing()
+			s.meshing2()
 			s.render()
 			s.heightMap()
+		}
+		if r%3 == 0 || s.race {
+			s.dcInterior()
 		}
 		if s.race {
 			s.renderRace()
